@@ -116,6 +116,12 @@ T["C14"] = dict(
     technique="TLA+ exporter/importer specification + TLC exhaustive component-wise check with canary; spec->code replay (token-exact) and code->spec validation of recorded exports by TLC",
     ref="6. C14")
 
+T["C15"] = dict(
+    text="spec/PyRepr.tla gives the constructor-call tree every __repr__ must produce (class prefix by the alias rule of package_of for the four alias settings, positional vs keyword arguments in constructor order, arguments dropped at their defaults - empty description, enabled=True, height within tolerance of 1, resolution 1000, type Automatic -, inf / nan / array as prefixed library names, rules as Rule.create(text) with the weight printed at the configured decimals), the import statement, and Eval: what executing a tree builds (omitted arguments take the constructors' defaults). TLC checks on the ~5,000 component-wise enumerated engines of MC_FllSyntax (thorough: x decimals 0/3/9) and on whole engines from a case file that Eval(Tree(e, alias)) = Canon(e) under every alias; canary: a representation that drops enabled=False must fail. spec->code: every engine is built with constructors; under alias 'fl' and one of '', '*', 'zz' repr(engine) is parsed with ast and compared node for node with the tree (numbers by value), the import statement and the representation are executed in a fresh namespace, the rebuilt engine's repr, FLL export, structure and outputs (bit-identical) are compared; every component on its own against its sub-tree and through eval; PythonExporter plain/encapsulated x formatted (black) on a sample; seeded whole engines, the 61 shipped examples, engines with perturbed doubles.",
+    note="Python's repr() digits and black are not modelled (numbers compared by value; formatted code is re-executed). Known findings: Triangle/Trapezoid with NaN last vertices are rebuilt through the constructors' short forms; encapsulated class named after the engine may shadow a library name under alias '*' (KNOWN_FINDINGS.txt).",
+    technique="TLA+ specification of the constructor-call tree and its evaluation + TLC exhaustive component-wise check with canary; spec->code replay (ast comparison, exec/eval round trip)",
+    ref="6. C15")
+
 PLANNED = {}
 
 def main():
